@@ -3,6 +3,7 @@
 package main
 
 import (
+	"math/big"
 	"strconv"
 
 	"github.com/ModChain/base58"
@@ -53,6 +54,24 @@ func genC20(h *H) {
 				}
 				lines = append(lines, "bip_fromstring "+s+" b58d="+s+":"+res)
 			}
+		}
+	}
+	// calls that take the rare branches of Verify / RecoverPublicKey (r < p-n, nonce x >= n), each several
+	// times, so that a branch that leaves something behind changes a later answer
+	for i := 0; i < 3; i++ {
+		qx, qy, r, sg, hash, ok := h.highXSig()
+		if !ok {
+			continue
+		}
+		ri := new(big.Int).SetBytes(unhx(r))
+		miss := hx(be32(new(big.Int).Add(ri, big.NewInt(1))))
+		for k := 0; k < 3; k++ {
+			lines = append(lines,
+				"verify "+hx(hash)+" "+qx+" "+qy+" "+r+" "+sg,
+				"verify "+hx(hash)+" "+qx+" "+qy+" "+miss+" "+sg,
+				"recover "+hx(hash)+" "+r+" "+sg+" 2",
+				"recover "+hx(hash)+" "+r+" "+sg+" 3",
+				"recover "+hx(hash)+" "+miss+" "+sg+" "+strconv.Itoa(h.rng.Intn(4)))
 		}
 	}
 	// repeats at random positions, then shuffle
